@@ -225,7 +225,8 @@ def latest_cases(chk, drv, work):
     rng = chk.rng
     for it in range(chk.n(6, 16)):
         folder = os.path.join(work, 'lat_%d' % it)          # underscore and dot in the folder name on purpose
-        folder = folder + rng.choice(['', '_v1.5', '.d_x', '_grid_8x8x4', '.grid_16', '[1]', '_[a-c]x', '_run*2', '_q?'])     # also characters that mean something to glob
+        # also characters that mean something to glob (every position of the list is used in turn: no draw decides whether a class occurs)
+        folder = folder + ['[1]', '', '_[a-c]x', '_v1.5', '_run*2', '.d_x', '_q?', '_grid_8x8x4', '.grid_16'][it % 9]
         if rng.random() < 0.3:
             # a parent directory whose name looks like a checkpoint name
             folder = os.path.join(work, 'scan_grid_%d' % rng.choice([3, 16, 250]), os.path.basename(folder))
@@ -244,6 +245,8 @@ def latest_cases(chk, drv, work):
         want_time = rng.choice([None, None, rng.choice(times)])
         if it % 3 == 1 and len(times) > 1:
             want_time = rng.choice(sorted(times)[:-1])           # an explicit time point that is NOT the newest checkpoint
+        if it % 9 in (0, 2):
+            want_time = None                                     # folder names with [ ]: the restart looks for the latest checkpoint itself
         layname = rng.choice(sorted(STD4))
         base = np.random.RandomState(it).normal(size=npts)
         cfile = os.path.join(work, 'c_%d.json' % it)
